@@ -134,7 +134,7 @@ impl Prop for C20 {
     }
     fn cases(&self, tier: Tier) -> u32 {
         match tier {
-            Tier::Quick => 10000,
+            Tier::Quick => 30000,
             Tier::Thorough => 300_000,
         }
     }
